@@ -38,7 +38,8 @@ def rhs_matrix(ode, max_tries: int = 20) -> sympy.Matrix:
     RuntimeError
         If the maximum number of tries is reached
     """
-    intermediates = {x.symbol: x.expr for x in ode.intermediates}
+    # Expressions may refer to state derivatives (e.g. `dy_dt = 2 * dx_dt - y`) as well as to intermediates
+    intermediates = {x.symbol: x.expr for x in (*ode.intermediates, *ode.state_derivatives)}
     rhs = sympy.Matrix([state.expr for state in ode.sorted_state_derivatives()])
 
     # A chain of intermediates can never be deeper than the number of intermediates
